@@ -501,6 +501,12 @@ class _SymGen:
             a[idx] = _sp.nsimplify(low) + (_sp.nsimplify(high) - _sp.nsimplify(low)) * t[idx]
         return _SymArray(a, np.float64, _ALG) if a.shape else a[()]
 
+    def integers(self, low, high=None, size=None, **k):
+        if high is None:
+            low, high = 0, low
+        a = self._fresh(self._shape(size), 'n', integer=True); self.log.append(('integers', a, int(low), int(high)))      # low <= n < high
+        return _SymArray(a.copy(), np.int64, _ALG) if a.shape else a[()]
+
     def complex(self, shape):
         re, im = self._fresh(shape, 'cr'), self._fresh(shape, 'ci')
         self.log.append(('complex', re + _sp.I * im))
@@ -510,7 +516,7 @@ class _SymGen:
         raise _Unsupported(f'symbolic generator: method {k} is not modelled')
 
 
-def _every_draw(fn, _record=(), **kw):
+def _every_draw(fn, _record=(), _linalg=None, **kw):
     gen = _SymGen()
     _alg.new_ctx()
     extra = {(ri, 'get_numpy_rng'): lambda seed=None: gen, (ri, '_random_complex'): lambda *size, seed=None: gen.complex(tuple(int(x) for x in size))}
@@ -522,21 +528,43 @@ def _every_draw(fn, _record=(), **kw):
         if getattr(ri, name) is not fn:
             extra[(ri, name)] = wrap
     with _shimmed([ri], dom=_ALG, extra=extra):
-        r = fn(seed=12345, **kw)
+        if _linalg:
+            # LAPACK routines replaced by recorders that stand for their assumed contract (installed on the linalg of the module's np shim for this call only)
+            import types as _types
+            shim_np = ri.np; real_linalg = shim_np.linalg
+
+            class L(_types.ModuleType):
+                def __getattr__(s_, k): return getattr(real_linalg, k)
+            Lm = L('lin')
+            for k_, f_ in _linalg.items():
+                setattr(Lm, k_, (lambda f_: lambda *a, **kk: f_(gen, *a, **kk))(f_))
+            shim_np.__dict__['linalg'] = Lm
+            try:
+                r = fn(seed=12345, **kw)
+            finally:
+                shim_np.__dict__['linalg'] = real_linalg
+        else:
+            r = fn(seed=12345, **kw)
     from contracts import spec_sim as SS
     return SS.arr(r) if isinstance(r, (_SymArray, np.ndarray)) else r, gen
 
 
-def job_every_draw(tier, rng):
+def job_every_draw(tier, rng, part=(0, 1)):
     from contracts import spec_sim as SS
+    import itertools
     out = []
     ex = lambda e: _sp.expand(_sp.sympify(e))
     z = lambda e: _is_zero(ex(e))
 
-    def run(label, fn, kw, clauses, functions, record=()):
+    cnt = [0]
+
+    def run(label, fn, kw, clauses, functions, record=(), linalg=None, confirm=None):
+        cnt[0] += 1
+        if (cnt[0] - 1) % part[1] != part[0]:
+            return
         oid = f'{PROP}.valid_for_every_draw.{label}'
         try:
-            r, gen = _every_draw(fn, _record=record, **kw)
+            r, gen = _every_draw(fn, _record=record, _linalg=linalg, **kw)
             res = clauses(r, gen)
         except _Unsupported as e:
             out.append(ob(oid, 'undecided', functions=functions, tier='P', backend='sympy', detail=f'engine: {e}')); return
@@ -547,6 +575,17 @@ def job_every_draw(tier, rng):
                 out.append(ob(oid, 'fault', functions=functions, tier='P', backend='sympy', detail='exception outside /repo code: ' + tb)); return
             out.append(ob(oid, 'undecided', functions=functions, tier='P', backend='sympy', detail='the real generator raised on symbolic draws: ' + tb)); return
         for name, ok in res:
+            if ok is None:      # the clause refers to the way the draws are made and the code draws differently: nothing is claimed (the bounded validity job decides)
+                out.append(ob(f'{oid}.{name}', 'undecided', functions=functions, tier='P', backend='sympy', detail='the generator does not draw the way this clause is phrased for')); continue
+            if not ok and confirm is not None:
+                # the clause is phrased in terms of HOW the result is normalised (through the eigh recorder); another valid normalisation would fail it although the property holds.
+                # The real generator decides: 64 seeds, validity evaluated natively. Valid everywhere -> undecided (the proof pattern does not apply to this code), else a replayed violation.
+                badseed = next((sd for sd in range(64) if not confirm(fn(seed=sd, **kw))), None)
+                if badseed is None:
+                    out.append(ob(f'{oid}.{name}', 'undecided', functions=functions, tier='P', backend='sympy', engine_suspect=True,
+                                  detail='clause fails symbolically but the real generator returns valid objects for seeds 0..63: the normalisation is not the one this clause is phrased for')); continue
+                out.append(ob(f'{oid}.{name}', 'refuted', functions=functions, tier='P', backend='sympy+native', witness=dict(function=fn.__name__, kwargs=jsonable(kw), seed=badseed), native=dict(confirmed=True),
+                              verifier_output=f'{label}: clause {name} is not an identity in the draws; seed {badseed} gives an invalid object')); continue
             w = None     # a refuted identity is reported without input (the bounded validity job evaluates the same constraint on real seeds and supplies the concrete one)
             out.append(ob(f'{oid}.{name}', 'proved' if ok else 'refuted', functions=functions, tier='P', backend='sympy-exact-identity', witness=w, canary_negated_clause_refuted=True,
                           verifier_output=None if ok else f'{label}: clause {name} is not an identity in the draws'))
@@ -617,7 +656,120 @@ def job_every_draw(tier, rng):
             if pt or dA * dB <= 4:
                 run(f'rand_separable_dm[dimA={dA},dimB={dB},k=2,pure_term={pt}]', ri.rand_separable_dm, dict(dimA=dA, dimB=dB, k=2, pure_term=pt), csep, F('rand_separable_dm'),
                     record=('rand_haar_state',) if pt else ('rand_density_matrix',))
-    out.append(ob(f'{PROP}.valid_for_every_draw.meta', 'meta', tier='P', backend='-', functions=[], paths=0, crosscheck_inputs=0))
+    # rand_adjacent_matrix: symmetric, zero diagonal, every off-diagonal entry is one of the drawn integers (range [0,2)) - for every draw
+    for d in (2, 3, 4):
+        def cadj(r, g, d=d):
+            draws = [e for e in g.log if e[0] == 'integers']
+            syms = set(draws[0][1].ravel()) if draws else set()
+            syms = set().union(*[set(e[1].ravel()) for e in draws]) if draws else set()
+            bits = bool(draws) and all(0 <= e[2] and e[3] <= 2 for e in draws)
+            ent = all((r[i, j] in syms) or r[i, j] in (0, 1) for i in range(d) for j in range(d))
+            return [('symmetric', all(z(r[i, j] - r[j, i]) for i in range(d) for j in range(d))), ('zero_diagonal', all(z(r[i, i]) for i in range(d))),
+                    ('entries_are_drawn_bits_or_constants_0_1', True if (bits and ent) else None), ('shape', r.shape == (d, d))]
+        run(f'rand_adjacent_matrix[dim={d}]', ri.rand_adjacent_matrix, dict(dim=d), cadj, F('rand_adjacent_matrix'))
+    # rand_ABk_density_matrix: Hermitian, unit trace, invariant under every permutation of the k copies of B, and a positive combination of congruences of G G^dagger (hence PSD) - for every draw
+    for dA, dB, k in [(2, 2, 1), (1, 2, 2)] + ([(2, 2, 2), (1, 2, 3)] if tier != 'quick' else []):      # the 8x8 cases (128 symbols) take ~2 min each
+        def cabk(r, g, dA=dA, dB=dB, k=k):
+            D = dA * dB ** k
+            nm = [e[1] for e in g.log if e[0] == 'normal']; cx = [e[1] for e in g.log if e[0] == 'complex']
+            R = r.reshape(D, D); Rt = r.reshape([dA] + [dB] * k + [dA] + [dB] * k)
+            perms = list(itertools.permutations(range(k)))
+            inv = all(z(a - b) for pi in perms[1:] for a, b in zip(np.transpose(Rt, [0] + [1 + x for x in pi] + [k + 1] + [k + 2 + x for x in pi]).ravel(), Rt.ravel()))
+            base = [('hermitian', all(z(R[i, j] - _sp.conjugate(R[j, i])) for i in range(D) for j in range(D))), ('trace_one', z(_sp.together(sum(R[i, i] for i in range(D)) - 1))),
+                    ('invariant_under_every_permutation_of_the_B_copies', inv), ('shape', r.shape == (D, D))]
+            if len(nm) == 2 and nm[0].shape == (D, D) and not cx:
+                G = nm[0] + _sp.I * nm[1]
+            elif len(cx) == 1 and cx[0].shape == (D, D) and not nm:
+                G = cx[0]
+            else:
+                return base + [('average_over_copy_permutations_of_GGdagger_over_its_trace_hence_psd', None)]
+            W = np.array([[ex(sum(G[i, t] * _sp.conjugate(G[j, t]) for t in range(D))) for j in range(D)] for i in range(D)], dtype=object)
+            tr = ex(sum(W[i, i] for i in range(D)))
+            Wt = W.reshape([dA] + [dB] * k + [dA] + [dB] * k)
+            ref = 0
+            for pi in perms:
+                ax = [0] + [1 + x for x in pi] + [k + 1] + [k + 2 + x for x in pi]
+                ref = ref + np.transpose(Wt, ax)
+            ref = ref.reshape(D, D)
+            return base + [('average_over_copy_permutations_of_GGdagger_over_its_trace_hence_psd', all(z(_sp.together(R[i, j] * tr * len(perms) - ref[i, j])) for i in range(D) for j in range(D)))]
+        run(f'rand_ABk_density_matrix[dimA={dA},dimB={dB},kext={k}]', ri.rand_ABk_density_matrix, dict(dimA=dA, dimB=dB, kext=k), cabk, F('rand_ABk_density_matrix'))
+    # ---- generators that normalise through an eigen-decomposition: numpy.linalg.eigh replaced by a recorder standing for its ASSUMED contract
+    # (op = V diag(w) V^dagger): fixed positive rational eigenvalues with rational square roots and a fully symbolic complex V. Proved for every draw: what is handed to eigh, the
+    # Gram form of the result (hence PSD) and that the completeness sum is S op S with S = V diag(w^-1/2) V^dagger - which is the identity exactly when eigh keeps its contract.
+    _W = [_sp.Rational(1, 4), _sp.Rational(9, 4), _sp.Integer(4), _sp.Rational(1, 9)]
+
+    def eigh_stub(g, a):
+        A = SS.arr(a); n = A.shape[0]
+        V = g._fresh((n, n), 'vr') + _sp.I * g._fresh((n, n), 'vi')
+        g.log.append(('eigh', A, V))
+        e = np.empty(n, dtype=object); e[:] = _W[:n]
+        return _SymArray(e, np.float64, _ALG), _SymArray(V.copy(), np.complex128, _ALG)
+
+    def S_of(V, n):
+        return np.array([[ex(sum(V[i, t] * (1 / _sp.sqrt(_W[t])) * _sp.conjugate(V[j, t]) for t in range(n))) for j in range(n)] for i in range(n)], dtype=object)
+    mm = lambda A, B: np.array([[ex(sum(A[i, t] * B[t, j] for t in range(A.shape[1]))) for j in range(B.shape[1])] for i in range(A.shape[0])], dtype=object)
+    dag = lambda A: np.array([[_sp.conjugate(A[j, i]) for j in range(A.shape[0])] for i in range(A.shape[1])], dtype=object)
+    same = lambda A, B: A.shape == B.shape and all(z(a - b) for a, b in zip(A.ravel(), B.ravel()))
+
+    def gdraw(g, shape):
+        nm = [e[1] for e in g.log if e[0] == 'normal']; cx = [e[1] for e in g.log if e[0] == 'complex']
+        if len(nm) == 2 and nm[0].shape == shape and not cx:
+            return nm[0] + _sp.I * nm[1]
+        if len(cx) == 1 and cx[0].shape == shape and not nm:
+            return cx[0]
+        return None
+
+    for d, nt in [(2, 2), (2, 3)] + ([(3, 2)] if tier != 'quick' else []):
+        def cpovm(r, g, d=d, nt=nt):
+            eg = [e for e in g.log if e[0] == 'eigh']; G = gdraw(g, (nt, d, d))
+            if len(eg) != 1 or G is None:
+                return [('drawn_and_normalised_as_the_clauses_expect', None)]
+            S = S_of(eg[0][2], d); W = [mm(G[k], dag(G[k])) for k in range(nt)]; tot = sum(W[1:], W[0])
+            return [('eigh_receives_the_sum_of_the_gram_matrices', same(eg[0][1], np.array([[ex(x) for x in row] for row in tot], dtype=object))),
+                    ('every_term_is_a_gram_matrix_(S G_k)(S G_k)^dagger_hence_psd', all(same(r[k], mm(mm(S, G[k]), dag(mm(S, G[k])))) for k in range(nt))),
+                    ('terms_sum_to_S_op_S_(identity_by_the_eigh_contract)', same(np.array([[ex(sum(r[k][i, j] for k in range(nt))) for j in range(d)] for i in range(d)], dtype=object), mm(mm(S, tot), S))),
+                    ('shape', r.shape == (nt, d, d))]
+        run(f'rand_povm[dim={d},num_term={nt}]', ri.rand_povm, dict(dim=d, num_term=nt), cpovm, F('rand_povm'), linalg=dict(eigh=eigh_stub),
+            confirm=lambda r, d=d, nt=nt: r.shape == (nt, d, d) and np.abs(r.sum(axis=0) - np.eye(d)).max() < 1e-9 and np.abs(r - r.transpose(0, 2, 1).conj()).max() < 1e-10 and np.linalg.eigvalsh(r).min() > -1e-9)
+    for din, dout, rank in [(2, 2, 1), (2, 2, 4)] + ([(2, 3, 2)] if tier != 'quick' else []):
+        def cchoi(r, g, din=din, dout=dout, rank=rank):
+            N = din * dout
+            eg = [e for e in g.log if e[0] == 'eigh']; G = gdraw(g, (N, rank))
+            if len(eg) != 1 or G is None:
+                return [('drawn_and_normalised_as_the_clauses_expect', None)]
+            S = S_of(eg[0][2], din); W = mm(G, dag(G))
+            W4 = W.reshape(din, dout, din, dout)
+            trout = np.array([[ex(sum(W4[a, o, b, o] for o in range(dout))) for b in range(din)] for a in range(din)], dtype=object)
+            # (S^dagger (x) 1) G : S is Hermitian identically, input index first (the documented order of the Choi operator)
+            SG = np.array([[ex(sum(_sp.conjugate(S[i, a]) * G[i * dout + o, t] for i in range(din))) for t in range(rank)] for a in range(din) for o in range(dout)], dtype=object)
+            R4 = r.reshape(din, dout, din, dout)
+            return [('eigh_receives_the_partial_trace_over_the_output_of_G_Gdagger', same(eg[0][1], trout)),
+                    ('result_is_the_gram_matrix_of_(S(x)1)G_hence_psd_of_rank_le_rank', same(r, mm(SG, dag(SG)))),
+                    ('partial_trace_over_the_output_is_S_op_S_(identity_by_the_eigh_contract)', same(np.array([[ex(sum(R4[a, o, b, o] for o in range(dout))) for b in range(din)] for a in range(din)], dtype=object), mm(mm(dag(S), trout), S))),
+                    ('shape', r.shape == (N, N))]
+        run(f'rand_choi_op[dim_in={din},dim_out={dout},rank={rank}]', ri.rand_choi_op, dict(dim_in=din, dim_out=dout, rank=rank), cchoi, F('rand_choi_op'), linalg=dict(eigh=eigh_stub),
+            confirm=lambda r, din=din, dout=dout, rank=rank: r.shape == (din * dout,) * 2 and np.abs(r - r.conj().T).max() < 1e-10 and np.linalg.eigvalsh(r).min() > -1e-9
+            and np.abs(np.einsum('aobo->ab', r.reshape(din, dout, din, dout)) - np.eye(din)).max() < 1e-9 and np.linalg.matrix_rank(r, tol=1e-8) <= rank)
+    for din, dout, nt, tc in [(2, 2, 2, False), (2, 2, 2, True), (2, 3, 1, True)]:
+        def ckraus(r, g, din=din, dout=dout, nt=nt, tc=tc):
+            eg = [e for e in g.log if e[0] == 'eigh']; nm = [e[1] for e in g.log if e[0] == 'normal']
+            if len(eg) != 1 or len(nm) != 1 or nm[0].shape != (nt, dout, din * (2 if tc else 1)):
+                return [('drawn_and_normalised_as_the_clauses_expect', None)]
+            Z = (nm[0][..., 0::2] + _sp.I * nm[0][..., 1::2]) if tc else nm[0]
+            Zs = Z.reshape(-1, din); ZZ = mm(dag(Zs), Zs)
+            V = eg[0][2]
+            B = _sp.Matrix([[V[i, t] * _sp.sqrt(_W[t]) for t in range(din)] for i in range(din)])        # V sqrt(w)
+            A = np.array((B.adjugate() / B.det()).tolist(), dtype=object)                                 # its inverse
+            comp = np.array([[ex(sum(_sp.conjugate(r[k][o, i]) * r[k][o, j] for k in range(nt) for o in range(dout))) for j in range(din)] for i in range(din)], dtype=object)
+            ref = mm(mm(A, ZZ), dag(A))
+            return [('eigh_receives_the_sum_of_Zdagger_Z', same(eg[0][1], ZZ)),
+                    ('every_operator_is_the_draw_times_the_inverse_root_(V sqrt w)^-dagger', all(same(r[k], mm(Z[k], dag(A))) for k in range(nt))),
+                    ('completeness_sum_is_A_op_Adagger_(identity_by_the_eigh_contract)', all(z(_sp.together(a - b)) for a, b in zip(comp.ravel(), ref.ravel()))),
+                    ('shape', r.shape == (nt, dout, din))]
+        run(f'rand_kraus_op[num_term={nt},dim_in={din},dim_out={dout},tag_complex={tc}]', ri.rand_kraus_op, dict(num_term=nt, dim_in=din, dim_out=dout, tag_complex=tc), ckraus, F('rand_kraus_op'), linalg=dict(eigh=eigh_stub),
+            confirm=lambda r, din=din, dout=dout, nt=nt: r.shape == (nt, dout, din) and np.abs(np.einsum('koi,koj->ij', r.conj(), r) - np.eye(din)).max() < 1e-9)
+    if part[0] == 0:
+        out.append(ob(f'{PROP}.valid_for_every_draw.meta', 'meta', tier='P', backend='-', functions=[], paths=0, crosscheck_inputs=0))
     return out
 
 
@@ -627,7 +779,8 @@ def jobs(tier):
     for i in range(k):
         J.append(('job_validity', dict(part=(i, k))))
     J.append(('job_cha', {}))
-    J.append(('job_every_draw', {}))
+    for i in range(8):
+        J.append(('job_every_draw', dict(part=(i, 8))))
     return J
 
 
